@@ -29,7 +29,9 @@ Inductive pop : Type :=
 | OMachW (i : nat)                        (* Bit Machine output of a witness node holding pool[i]:
                                              write_value copies iter_padded, exec reads it back *)
 | OCtx8 (mid : list N) (count : N) (buffer : list N)   (* Value::ctx8 *)
-| OIsType (i : nat) (t : ty).             (* pool[i] again, and Value::is_of_type(t) as extra number *)
+| OIsType (i : nat) (t : ty)              (* pool[i] again, and Value::is_of_type(t) as extra number *)
+| OEncV (i : nat).                        (* encode_value then from_compact_bits: the value again (decoded from its own
+                                             compact bits), and the number of bits written as extra number *)
 
 (* a pool entry: a value or a failure code
    1 = None (accessor / prune / missing operand)   2 = EarlyEndOfStream
@@ -129,6 +131,22 @@ Definition run_op (pool : list entry) (op : pop) : entry * list N :=
   | OIsType i t =>
       match get pool i with
       | Some v => (EV v, [b2n (is_of_type v t)])
+      | None => (EN 1, [])
+      end
+  | OEncV i =>
+      match get pool i with
+      | Some v =>
+          match iter_compact v with
+          | Ok c => match from_compact_bits c (vty v) with
+                    | Ok (x, _) => (EV x, [N.of_nat (length c)])
+                    | Err _ => (EN 2, [])
+                    | Panic _ => (EN 9, [])
+                    | OutOfFuel => (EN 8, [])
+                    end
+          | Err _ => (EN 2, [])
+          | Panic _ => (EN 9, [])
+          | OutOfFuel => (EN 8, [])
+          end
       | None => (EN 1, [])
       end
   end.
